@@ -659,6 +659,15 @@ func runFn(s *Scen, res *Result) {
 				}
 			}
 		}
+		// (b') contract of the fork's RedirectMarshaler where no standard-library run exists: when
+		// the value it redirects to cannot be encoded, neither can the redirect - an error inside
+		// must come out, not a shorter text
+		if c.Target == TRedirect && c.FailAt == 2 && !c.Panic && c.TypeSeed&48 == 48 && c.Fn >= FMarshal && c.Fn <= FMarshalIndent && !got.Skipped {
+			if got.Err == "" {
+				res.viol("redirect", "codec|fn|"+name+"|redirect-error-swallowed", detail("a Marshaler inside the redirected value failed (scripted), yet the encoding reports success", fmt.Sprintf("%q", got.Out), "an error"), int(c.ID))
+			}
+			res.Probes["redirect_inner_failure_checked"]++
+		}
 		valid := jr.Valid(c.Text)
 		// (c) round trip of dynamic values
 		if valid && got.Err == "" && c.Target == TAny && c.Fn <= FUnmarshalValidWithKeys && len(c.Prefill) == 0 {
